@@ -25,11 +25,12 @@ fn main() {
     let (mut systems, mut chains, mut links, mut exact_starts, mut near_starts, mut boundary_starts) = (0usize, 0usize, 0usize, 0usize, 0usize, 0usize);
     let mut added_kinds = 0usize;
     for i in 0..n {
-        let mut sys = match i % 3 {
+        let sys = match i % 3 {
             0 => gen_planted(&mut rng, 8, 1e-2, &SHAPES),
             1 => gen_planted(&mut rng, 5, 0.2, &SHAPES),
             _ => gen_linear(&mut rng, 5, 6),
         };
+        let mut sys = maybe_large(&mut rng, i, sys);
         if i % 5 == 4 {
             sys = with_priorities(&mut rng, sys);
         }
@@ -283,8 +284,9 @@ fn main() {
             println!("VIOLATION {}", v.to_json());
         }
     }
+    let large_systems = large_count();
     println!(
-        "STATS {{\"systems\": {systems}, \"exact_starts\": {exact_starts}, \"near_tolerance_starts\": {near_starts}, \"tolerance_boundary_starts\": {boundary_starts}, \"chains\": {chains}, \"chain_links\": {links}, \"already_satisfied_requests_added\": {added_kinds}, \"violations\": {}}}",
+        "STATS {{\"systems\": {systems}, \"large_systems\": {large_systems}, \"exact_starts\": {exact_starts}, \"near_tolerance_starts\": {near_starts}, \"tolerance_boundary_starts\": {boundary_starts}, \"chains\": {chains}, \"chain_links\": {links}, \"already_satisfied_requests_added\": {added_kinds}, \"violations\": {}}}",
         out.len()
     );
 }
